@@ -3,7 +3,7 @@ CONSTANTS
   Keys = {"a", "b"}
   Vals = {"1", "2"}
   MaxOps = 3
-  InitRecomputes = FALSE
+  InitRecomputes = TRUE
   FinalInRoot = FALSE
 INVARIANTS EqualHistoriesEqualRoots InitIdempotent
 CHECK_DEADLOCK FALSE
